@@ -256,7 +256,7 @@ def subject_evidence(rule):
     def f(agg, samples, distinct, tier):
         return cov(agg.get('histories', 0), distinct, rule, samples,
                    observed=pick(agg, 'histories', 'ops', 'notifies', 'nestedNotifies', 'calls', 'inRoundActions', 'staleRejected', 'selfUnsub',
-                                 'unsubOther', 'lazyRemovals', 'handleMoves', 'nontrivialCases', 'maxDepth', 'tokensDestroyed'),
+                                 'unsubOther', 'lazyRemovals', 'handleMoves', 'nontrivialCases', 'maxDepth', 'tokensDestroyed', 'countdownObservers', 'longLifeRuns', 'longLifeCycles', 'burstObservers'),
                    operations=agg.get('opCount', {}), signatures=agg.get('signatures', {}), in_round_actions=agg.get('inRoundActionKinds', {}))
     return f
 
@@ -269,7 +269,8 @@ SPECS['C05'] = dict(
                               '(callable, self-view callable, unique_ptr, raw pointer), unsubscribe via handle / via subject, mute, unmute, invalidate, handle move-construct/-assign, '
                               'stale-handle probes and notify, for signatures <>, <int>, <const std::string&>, <int, std::string>, <Payload by value>, <int&>. Every real invocation '
                               'must be the next one predicted by the model (who, order, once, argument digest); handle state and token destruction are checked after every step. '
-                              'non-trivial = a notify over >=2 observers with a muted/invalid one, or a rejected stale handle; distinct = distinct histories'),
+                              'non-trivial = a notify over >=2 observers with a muted/invalid one, or a rejected stale handle; distinct = distinct histories. 3 per mille of the cases are long lives instead: '
+                              'one Subject<int> goes through 300 .. 140000 subscribe/unsubscribe cycles (past 2^16 and 2^17 subscription ids) while residents stay subscribed, with exact deliveries'),
     assumptions=['isValid() between invalidation and the next notify is left unjudged', 'isMuted/mute/unmute/handle.unsubscribe() only on subscribed handles (documented precondition)'],
     manifest=dict(engine='h_subject', text='Online co-simulation: an executable model of the Subject predicts every invocation and the real callbacks check themselves against it, over seeded '
                   'histories for six argument signatures, with stale/foreign handle probes and per-observer destruction tokens, under ASan/UBSan/LSan.',
@@ -282,7 +283,8 @@ SPECS['C10'] = dict(
     evidence=subject_evidence('C05 histories whose callbacks run seeded scripts while being notified: subscribe a new observer, unsubscribe self / an already-called / a not-yet-called observer '
                               '(via handle or subject), mute, unmute, invalidate any target, call notify again (nesting <= 3). The script acts on the real Subject and on the model together; '
                               'the model keeps one snapshot per active round and predicts the next invocation; a destruction token per observer must die exactly once and no later than the '
-                              'return of the outermost notify. non-trivial = history with >=1 in-round action; distinct = distinct histories'),
+                              'return of the outermost notify. non-trivial = history with >=1 in-round action; distinct = distinct histories. 3 per mille of the cases are bursts instead: one callback '
+                              'subscribes and drops (or keeps) 255 .. 131072 observers and then unsubscribes a neighbour that has not been called yet'),
     assumptions=['an observer removed during a round may be destroyed immediately or at any time up to the return of the outermost notify',
                  'callbacks do not destroy the Subject itself'],
     manifest=dict(engine='h_subject', text='The same co-simulation with scripted callbacks that mutate the Subject mid-round (including self-unsubscribe and nested notify); ASan decides memory safety, '
